@@ -198,8 +198,9 @@ func render(b *strings.Builder, v reflect.Value, namer RefNamer, depth int) {
 			}
 		}
 		if v.Type() == regexpType {
-			if v.CanInterface() {
-				b.WriteString("re:" + v.Interface().(*regexp.Regexp).String())
+			// the source text (readable through reflection also behind unexported fields)
+			if e := v.Elem().FieldByName("expr"); e.IsValid() && e.Kind() == reflect.String {
+				b.WriteString("re:" + e.String())
 			} else {
 				b.WriteString("re")
 			}
